@@ -21,9 +21,9 @@ func init() {
 	register(&Scenario{Name: "lossy-paced", Prop: "C09", Faulty: true, Doc: "writers and lossy + backpressured consumers run concurrently, consumer pace = schedule (stalls of tape-chosen length); writers finish, lossy streams are valid edit scripts of the consumer's own view and converge; backpressured streams lose nothing",
 		Run:  func(w *World) { lossyRun(w, false) },
 		Real: []string{"pkg/resource Value/Collection", "minibus.DropExcess", "mergeCollectionExcess"}, Stub: []string{"writer/consumer tasks"}})
-	register(&Scenario{Name: "bp-slow", Prop: "C09", Faulty: true, Doc: "Value with a backpressured consumer that keeps receiving but slowly (1-4 s of fake time between receives, discrete-event sleep) and 1-4 concurrent writers queued behind each other: no single delivery takes 5 s, so every Set must succeed, nothing may be dropped and the consumer ends on the final value",
+	register(&Scenario{Name: "bp-slow", Prop: "C09", Faulty: true, Doc: "Value with a backpressured consumer that keeps receiving but slowly (1-4 s of fake time between receives, discrete-event sleep) and 1-4 concurrent writers queued behind each other: no single delivery takes 5 s, so every Set must succeed, nothing may be dropped and the consumer ends on the final value; one run in three a Collection instead, whose consumer may take 5-8 s per event: its writers wait, every write succeeds and nothing is dropped",
 		Run:  bpSlowRun,
-		Real: []string{"pkg/resource Value (5 s send timeout, publish queue)", "internal/minibus"}, Stub: []string{"writer/consumer tasks", "fake clock"}})
+		Real: []string{"pkg/resource Value (5 s send timeout, publish queue), Collection", "internal/minibus"}, Stub: []string{"writer/consumer tasks", "fake clock"}})
 	register(&Scenario{Name: "bp-timeout", Prop: "C09", Faulty: true, Doc: "Value with a backpressured consumer that stops receiving after j events (abandon) and maybe cancels later; 1-2 writers; fake time advances only when nothing else can run: every Set returns, with an error exactly when 5 s of fake time passed inside the call",
 		Run:  bpTimeoutRun,
 		Real: []string{"pkg/resource Value (5 s send timeout)", "internal/minibus"}, Stub: []string{"writer/consumer tasks", "fake clock"}})
@@ -417,11 +417,20 @@ func bpTimeoutRun(w *World) {
 func bpSlowRun(w *World) {
 	t := w.Tape
 	cfg := resCfg{HasInitial: true, InitialVal: mm{V: 100}}
+	// (one run in three: a Collection. Nothing is said about a bound on its writers' wait, so the consumer may take
+	// longer than 5 s over an event: the writers wait, and nothing is dropped)
+	coll := t.Flag(1, 3)
+	if coll {
+		cfg = resCfg{Coll: true, Initial: map[string]mm{"a": {V: 100}}}
+	}
 	r := newRealRes(cfg, &simClock{}, &simRNG{})
 	ctx, cancel := context.WithCancel(context.Background())
 	s := &subscriber{name: "s0", cfg: subCfg{Backpressure: true, UpdatesOnly: t.Flag(1, 3)}, ctx: ctx, cancel: cancel}
 	s.open(r)
 	pause := time.Duration(1+t.Choose(4)) * time.Second
+	if coll && t.Flag(1, 2) {
+		pause = time.Duration(5+t.Choose(4)) * time.Second
+	}
 	w.Go(s.name, true, func(task *Task) {
 		for {
 			task.Yield("recv")
@@ -447,7 +456,11 @@ func bpSlowRun(w *World) {
 		for j := 0; j < n; j++ {
 			nextV++
 			total++
-			ops = append(ops, wop{Kind: opSet, Val: mm{V: nextV}})
+			if coll {
+				ops = append(ops, wop{Kind: opUpdate, ID: []string{"a", "b"}[t.Choose(2)], CreateIfAbs: true, Val: mm{V: nextV}})
+			} else {
+				ops = append(ops, wop{Kind: opSet, Val: mm{V: nextV}})
+			}
 		}
 		w.Go(fmt.Sprintf("w%d", i), false, func(task *Task) {
 			for _, o := range ops {
@@ -475,7 +488,7 @@ func bpSlowRun(w *World) {
 					ok++
 				case codes.Aborted:
 				default:
-					w.Violate("spurious-failure", fmt.Sprintf("%s failed after %v although the consumer takes an event every %v (< 5 s)", c.h, c.elapsed, pause), map[string]any{"slow": true})
+					w.Violate("spurious-failure", fmt.Sprintf("%s failed after %v although the consumer takes an event every %v", c.h, c.elapsed, pause), map[string]any{"slow": true, "coll": coll})
 				}
 			}
 		}
@@ -494,9 +507,9 @@ func bpSlowRun(w *World) {
 			}
 		}
 		if got != ok {
-			w.Violate("event-dropped", fmt.Sprintf("%d writes succeeded but the backpressured consumer, which kept receiving, got %d events: %s", ok, got, eventsString(s.events)), nil)
+			w.Violate("event-dropped", fmt.Sprintf("%d writes succeeded but the backpressured consumer, which kept receiving (an event every %v), got %d events: %s", ok, pause, got, eventsString(s.events)), map[string]any{"coll": coll})
 		}
-		if cur := r.apply(wop{Kind: opGet}); len(s.events) > 0 && cur.HasMsg && s.events[len(s.events)-1].New != cur.Msg && ok > 0 {
+		if cur := r.apply(wop{Kind: opGet}); !coll && len(s.events) > 0 && cur.HasMsg && s.events[len(s.events)-1].New != cur.Msg && ok > 0 {
 			w.Violate("not-latest", fmt.Sprintf("the consumer's last event is %s, the value is %s", s.events[len(s.events)-1].New, cur.Msg), map[string]any{"resource": "value", "mode": "backpressure"})
 		}
 	}
